@@ -288,3 +288,44 @@ Definition dcf_cuts (cwf : list N) (n arcs k : N) : list N :=
   | [_] => cuts ++ [n]
   | _ => cuts
   end.
+
+(** * Compositions *)
+(** the splittable graph types as a grammar: every nesting of the wrappers over the
+    plain representations *)
+Inductive gexpr :=
+| GRa (g : list (list N))               (* VecGraph, BTreeGraph, BvGraph, CsrGraph, CsrSortedGraph *)
+| GSeq (g : list (list N))              (* BvGraphSeq, ArcListGraph *)
+| GLeftRa (g : list (list (N * N)))     (* Left<LabeledVecGraph> *)
+| GRightRa (g : list (list (N * N)))    (* Right<LabeledVecGraph> *)
+| GLeftUnit (e : gexpr)                 (* Left<UnitLabelGraph<_>> *)
+| GPermuted (p : list N) (e : gexpr)
+| GNoLoops (e : gexpr)
+| GPar (e : gexpr)
+| GUnion (e1 e2 : gexpr).
+
+Fixpoint denote (e : gexpr) : labeling N :=
+  match e with
+  | GRa g => ra_lab g
+  | GSeq g => seq_lab g
+  | GLeftRa g => left_lab (ra_lab g)
+  | GRightRa g => right_lab (ra_lab g)
+  | GLeftUnit e => left_lab (unit_lab (denote e))
+  | GPermuted p e => permuted_lab p (denote e)
+  | GNoLoops e => noloops_lab (denote e)
+  | GPar e => par_lab (denote e)
+  | GUnion e1 e2 => union_lab (denote e1) (denote e2)
+  end.
+
+(** the full sequential scan of a composition, defined on its own *)
+Fixpoint gscan (e : gexpr) : lender N :=
+  match e with
+  | GRa g => scan g
+  | GSeq g => scan g
+  | GLeftRa g => map left_elem (scan g)
+  | GRightRa g => map right_elem (scan g)
+  | GLeftUnit e => map left_elem (map unit_elem (gscan e))
+  | GPermuted p e => map (perm_elem p) (gscan e)
+  | GNoLoops e => map noloops_elem (gscan e)
+  | GPar e => gscan e
+  | GUnion e1 e2 => union_lender (gscan e1) (gscan e2)
+  end.
